@@ -242,6 +242,23 @@ func (r *rewriter) rewriteFile() {
 	// the network (gob Encoder.Encode / Decoder.Decode) are serialised by a lock the
 	// simulator can see
 	r.wrapStdlibLocked(f)
+	// R7: time.Now() -> _vsim.Now() (strictly increasing instants)
+	ast.Inspect(f, func(n ast.Node) bool {
+		ce, ok := n.(*ast.CallExpr)
+		if !ok || len(ce.Args) != 0 {
+			return true
+		}
+		se, ok := ce.Fun.(*ast.SelectorExpr)
+		if !ok || se.Sel.Name != "Now" {
+			return true
+		}
+		if id, ok := se.X.(*ast.Ident); ok && id.Name == "time" {
+			id.Name = simPkg
+			r.usedSim = true
+			r.count("R7_time_now")
+		}
+		return true
+	})
 	// declarations
 	for _, d := range f.Decls {
 		fd, ok := d.(*ast.FuncDecl)
